@@ -1,5 +1,20 @@
 NOT_APPLICABLE = {}
+TECH = 'contracts on the real functions; VCs generated from the AST of /repo by symbolic execution (pyvc) and discharged by z3/cvc5'
 CLAIMED['C19'] = dict(
     text='Proof: define_blockshape_3d/_2d verified for all paths and all integer block dimensions, int/float/string bit rates: '
-         'accepted => VALID and as requested; VALID request => accepted. 383 obligations, unbounded. Near-miss floats/strings: bounded grid under CPython.',
+         'accepted => VALID and as requested; VALID request => accepted. Unbounded. Near-miss floats/strings: bounded grid under CPython.',
     note='floats as exact reals (S3a); ENGINE pyvc + z3/cvc5 trusted; faithful read-back of every valid setting is the layout obligation of C01/C02/C09')
+CLAIMED['C02'] = dict(
+    text='Proof (per function, modular): every loader function and read_inline/crossline/zslice/subvolume/volume/subplane/get_trace return exactly '
+         'the slice of the spec-defined volume V they denote, for all cube shapes and arguments, per valid (rate, blockshape) setting '
+         '(quick: representative settings; thorough: all 401). Diagonals, coordinate lookups, accessors, xarray: not yet under contract.',
+    note='AX-ZFP-DEC, AX-NP-INDEX, AX-FILE, AX-POOL, AX-LRU assumed; reader object state as established by __init__ assumed (mk_reader); ENGINE pyvc + z3/cvc5 trusted')
+CLAIMED['C07'] = dict(
+    text='Proof: ghost read log of every loader function / read method under contract equals exactly the ranges the property allows '
+         '(group blocks, one unit per column, one block per tile, blocks of the box), disjoint, inside the data section; none with preload; '
+         'file and blob backends at the choke point.',
+    note='AX-FILE/AX-BLOB (one backend read per read_range call), AX-LRU; open cost / header 4-byte reads not covered here')
+CLAIMED['C14'] = dict(
+    text='Proof: for read_inline/crossline/zslice/subvolume/volume/subplane/get_trace: raises IndexError/WrongDimensionalityError iff an argument is '
+         'outside the real extent (both directions, all paths), otherwise every element is a real stored sample.',
+    note='diagonals, number/coordinate lookups, header reads and accessors not yet under contract; same trusted base as C02')
